@@ -24,6 +24,27 @@ def norm_desc(s):
     return re.sub(r'[^A-Z0-9]', '', s.upper())
 
 
+def const_return(fname, args):
+    """the constant a function of the self-test TU returns when called with the given (partly constant) arguments, if all returns
+    reachable under those constants agree — lets a verdict pass through a reporting helper such as `report_result(mgr, pass)`"""
+    P = cf.PROGRAM[0]
+    if P is None or not P.has(TU, fname):
+        return None
+    g = P.func(TU, fname)
+    env = {}
+    for i, prm in enumerate(g.params):
+        if i < len(args) and args[i] is not None:
+            env[prm['name']] = args[i]
+    if not env:
+        return None
+    vals = set()
+    for b in g.reachable(None, env):
+        for ev in g.blocks[b]['ev']:
+            if ev['k'] == 'return':
+                vals.add(cf.evalc(ev.get('val'), env) if ev.get('val') is not None else None)
+    return vals.pop() if len(vals) == 1 and None not in vals else None
+
+
 def subst_eval(cond, match, value, env=None):
     """evaluate cond with every sub-node satisfying match() replaced by the constant value"""
     def rec(e):
@@ -35,6 +56,11 @@ def subst_eval(cond, match, value, env=None):
         for k in ('b', 'i', 'e', 'l', 'r', 'c', 't', 'f'):
             if isinstance(n.get(k), dict):
                 n[k] = rec(n[k])
+        if n.get('k') == 'call' and n.get('fn') and isinstance(n.get('a'), list):
+            n['a'] = [rec(a) if isinstance(a, dict) else a for a in n['a']]
+            v = const_return(n['fn'], [cf.evalc(a, env) for a in n['a']])
+            if v is not None:
+                return {'k': 'int', 'v': v}
         return n
     return cf.evalc(rec(cond), env)
 
@@ -429,16 +455,32 @@ def run_f3_f4(chk, P):
             fe = fail_edge(f, tb, m) if tb is not None else None
             oe = ok_edge(f, tb, m) if tb is not None else None
 
-            def phases(start):
+            def phases(start, value):
                 out = []
+                # a reporting helper called with the KAT's verdict in the tested condition: the callbacks it makes for that verdict
+                if tb is not None:
+                    tcond = (f.blocks[tb].get('term') or {}).get('fullcond') or (f.blocks[tb].get('term') or {}).get('cond')
+                    for nd in cf.walk(tcond or {}):
+                        if nd.get('k') == 'call' and nd.get('fn') and P.has(TU, nd['fn']) and nd['fn'] != ev['e']['fn']:
+                            g = P.func(TU, nd['fn'])
+                            env = {}
+                            for ai, a in enumerate(nd.get('a', [])):
+                                if m(cf.strip_casts(a)) and ai < len(g.params):
+                                    env[g.params[ai]['name']] = value
+                            if env:
+                                for b_ in g.reachable(None, env):
+                                    for e in g.blocks[b_]['ev']:
+                                        if e['k'] == 'call' and e['e'].get('fn') == 'make_callback':
+                                            out.append(cf.strip_casts(e['e']['a'][1]).get('v'))
                 if start is None:
                     return out
                 for e in f.blocks[start]['ev']:
                     if e['k'] == 'call' and e['e'].get('fn') == 'make_callback':
                         out.append(cf.strip_casts(e['e']['a'][1]).get('v'))
                 return out
-            r4.check(phases(fe) == ['FAIL'], key + ':FAIL', ev['loc'], '%s: failing %s() is not followed by exactly one FAIL callback (%s)' % (f.name, ev['e']['fn'], phases(fe)))
-            r4.check(phases(oe) == ['PASS'], key + ':PASS', ev['loc'], '%s: passing %s() is not followed by exactly one PASS callback (%s)' % (f.name, ev['e']['fn'], phases(oe)))
+            pf, po = phases(fe, 0), phases(oe, 1)
+            r4.check(pf == ['FAIL'], key + ':FAIL', ev['loc'], '%s: failing %s() is not followed by exactly one FAIL callback (%s)' % (f.name, ev['e']['fn'], pf))
+            r4.check(po == ['PASS'], key + ':PASS', ev['loc'], '%s: passing %s() is not followed by exactly one PASS callback (%s)' % (f.name, ev['e']['fn'], po))
     if ngroups < 4:
         chk.broken('expected >= 4 KAT call sites in group functions, found %d' % ngroups)
 
@@ -504,6 +546,45 @@ def run_f5(chk, P):
                                     init_ok = True
                 r.check(inc_ok and init_ok, '%s:step' % t['name'], f.blocks[head]['term']['loc'],
                         'loop over %s does not visit every vector (start 0, step 1)' % t['name'])
+        if not found:
+            # pointer-walking form: `v = table; v_end = v + <rows>; for (; v != v_end; v++)`
+            for f in P.funcs(TU):
+                cur = None
+                for _, _, ev in f.events(('decl', 'assign')):
+                    if ev['k'] == 'decl':
+                        for d in ev['d']:
+                            i_ = cf.strip_casts(d.get('init')) if d.get('init') is not None else None
+                            if isinstance(i_, dict) and i_.get('k') == 'ref' and i_.get('n') == t['name']:
+                                cur = d['n']
+                if cur is None:
+                    continue
+                # end pointer: a local initialised with <cur or table> + n
+                ends = {}
+                for _, _, ev in f.events(('decl',)):
+                    for d in ev['d']:
+                        i_ = cf.strip_casts(d.get('init')) if d.get('init') is not None else None
+                        if isinstance(i_, dict) and i_.get('k') == 'bin' and i_['op'] == '+':
+                            l_, r_ = cf.strip_casts(i_['l']), cf.strip_casts(i_['r'])
+                            if isinstance(l_, dict) and l_.get('k') == 'ref' and l_.get('n') in (cur, t['name']) and cf.evalc(r_) is not None:
+                                ends[d['n']] = cf.evalc(r_)
+                head = None
+                for bid, b in f.blocks.items():
+                    tt = b.get('term')
+                    if tt and tt['kind'] in ('ForStmt', 'WhileStmt') and tt.get('fullcond') is not None:
+                        c = guards.canon(tt['fullcond'])
+                        for en, cnt in ends.items():
+                            if c in ('%s != %s' % (cur, en), '%s != %s' % (en, cur), '%s < %s' % (cur, en)):
+                                head = (bid, en, cnt, c)
+                if head is None:
+                    continue
+                found = True
+                bid, en, cnt, c = head
+                r.check(cnt == n, '%s:bound' % t['name'], f.blocks[bid]['term']['loc'],
+                        'loop over %s stops at %s = start + %d, the table has %d vectors' % (t['name'], en, cnt, n))
+                steps = [e2['op'] for _, _, e2 in f.events(('assign',)) if cf.strip_casts(e2['lhs']).get('n') == cur]
+                r.check(steps == ['++'], '%s:step' % t['name'], f.blocks[bid]['term']['loc'],
+                        'loop over %s does not visit every vector (pointer modified by %s)' % (t['name'], steps))
+                r.ok('%s:index' % t['name'])
         r.check(found, '%s:visited' % t['name'], t['loc'], 'vector table %s is never walked' % t['name'])
     for d in REQUIRED_DESCRIPTIONS:
         r.check(norm_desc(d) in descs, 'desc:' + d, P.func(TU, 'self_test').loc,
